@@ -149,22 +149,22 @@ impl Scenario {
 }
 
 struct Opts {
-    /// include responses whose failure is only visible in the HTTP status / in a trailers-only
-    /// header block on gRPC
-    grpc_edge: bool,
     max_requests: usize,
 }
 
-fn gen_fault(g: &mut Rng, transport: Transport, stalls_left: &mut u32, o: &Opts) -> Decision {
-    if o.grpc_edge {
-        // the `grpc-edge` lane: failures a gRPC client only sees in the response *headers*
-        return if g.bool() { Decision::GrpcStatus(*g.pick(&[8u32, 14]), GrpcForm::TrailersOnly) } else { Decision::Status(*g.pick(&[502u16, 503])) };
-    }
+fn gen_fault(g: &mut Rng, transport: Transport, stalls_left: &mut u32) -> Decision {
     loop {
         let d = match g.below(6) {
             0 | 1 => {
                 if transport == Transport::Grpc {
-                    Decision::GrpcStatus(*g.pick(&[1u32, 2, 4, 8, 13, 14]), GrpcForm::Trailers)
+                    match g.below(4) {
+                        // the status in a real trailers frame
+                        0 => Decision::GrpcStatus(*g.pick(&[1u32, 2, 4, 8, 13, 14]), GrpcForm::Trailers),
+                        // a trailers-only response: the status sits in the one and only headers frame
+                        1 | 2 => Decision::GrpcStatus(*g.pick(&[8u32, 14]), GrpcForm::TrailersOnly),
+                        // something in between (a proxy) answers with a plain non-2xx status
+                        _ => Decision::Status(*g.pick(&[502u16, 503])),
+                    }
                 } else {
                     Decision::Status(*g.pick(&[301u16, 400, 404, 429, 500, 502, 503]))
                 }
@@ -187,12 +187,12 @@ fn gen_fault(g: &mut Rng, transport: Transport, stalls_left: &mut u32, o: &Opts)
 fn generate(seed: u64, case: u64, o: &Opts) -> Scenario {
     let mut g = Rng::stream(seed, &[12, 1, case]);
     // configuration dimensions walk systematically, the rest is drawn
-    let transport = if o.grpc_edge { Transport::Grpc } else { Transport::ALL[(case % 3) as usize] };
+    let transport = Transport::ALL[(case % 3) as usize];
     let gzip = case / 3 % 2 == 0;
     let subset = (case / 6 % 7 + 1) as u8;
     let configured: Vec<Signal> = Signal::ALL.into_iter().filter(|s| subset & s.bit() != 0).collect();
 
-    let flavour = if o.grpc_edge { 5 + g.below(3) } else { g.below(8) };
+    let flavour = g.below(8);
     let fault_free = flavour < 2;
     let mut dead = None;
     let mut late = None;
@@ -228,12 +228,39 @@ fn generate(seed: u64, case: u64, o: &Opts) -> Scenario {
         let mut script = Vec::new();
         for _ in 0..10 {
             if faults < max_faults && g.chance(9, 20) {
-                script.push(gen_fault(&mut g, transport, &mut stalls_left, o));
+                script.push(gen_fault(&mut g, transport, &mut stalls_left));
                 faults += 1;
             } else if transport != Transport::Grpc && g.chance(1, 6) {
                 script.push(Decision::Ack(*g.pick(&[202u16, 204])));
             } else {
                 script.push(Decision::Ack(200));
+            }
+        }
+        // every fault kind of the transport is walked systematically as well (first configured signal,
+        // first or second request after the primer), so that no run depends on luck to hit one
+        if dead.is_none() && *s == configured[0] {
+            let menu: &[Decision] = if transport == Transport::Grpc {
+                &[
+                    Decision::GrpcStatus(14, GrpcForm::Trailers),
+                    Decision::GrpcStatus(14, GrpcForm::TrailersOnly),
+                    Decision::Status(503),
+                    Decision::Stall,
+                    Decision::DropOnAccept,
+                    Decision::DropBeforeBody,
+                    Decision::DropAfterRead,
+                    Decision::GrpcStatus(8, GrpcForm::TrailersOnly),
+                    Decision::Status(502),
+                ]
+            } else {
+                &[Decision::Status(503), Decision::Status(301), Decision::Stall, Decision::DropOnAccept, Decision::DropBeforeBody, Decision::DropAfterRead, Decision::Status(429)]
+            };
+            let forced = menu[(case / 3) as usize % menu.len()];
+            let at = (case / 3 / menu.len() as u64 % 2) as usize;
+            while script.len() <= at {
+                script.push(Decision::Ack(200));
+            }
+            if script[at].is_ack() {
+                script[at] = forced;
             }
         }
         while script.last().map(|d| d.is_ack() && *d == Decision::Ack(200)).unwrap_or(false) {
@@ -453,7 +480,8 @@ fn run(r: &mut Report, sc: &Scenario) {
         }
 
         flush_call = stamp();
-        flushed = otlp.blocking_flush(Duration::from_secs(40));
+        // (after a watchdog the scenario is inconclusive whatever flush says: do not wait long for it)
+        flushed = otlp.blocking_flush(Duration::from_secs(if arrived { 40 } else { 1 }));
         flush_ret = stamp();
         stop.store(true, Ordering::SeqCst);
     });
@@ -574,6 +602,9 @@ fn run(r: &mut Report, sc: &Scenario) {
     }
     for rec in records.iter().filter(|r| r.decision.is_fault()) {
         r.observe(&format!("fault-hit:{}", rec.decision.class()), 1);
+        if rec.wire == Wire::Grpc {
+            r.observe(&format!("fault-hit-on-grpc:{}", rec.decision.class()), 1);
+        }
     }
     let conn_refused = polled.conn_failed.len();
     if conn_refused > 0 {
@@ -863,7 +894,7 @@ fn main() {
          failure was actually hit by a request, plus fault-free scenarios whose batch spanned several size-limited requests",
     );
     let seed = args.seed;
-    let opts = Opts { grpc_edge: args.get_u64("grpc-edge", 0) == 1, max_requests: args.get_u64("max-requests", if args.thorough() { 6 } else { 4 }) as usize };
+    let opts = Opts { max_requests: args.get_u64("max-requests", if args.thorough() { 6 } else { 4 }) as usize };
 
     // process-global hooks, set once
     let divisor = [100u32, 50, 150, 200][(seed % 4) as usize];
@@ -884,7 +915,7 @@ fn main() {
         std::process::exit(r.finish());
     }
 
-    let n = if opts.grpc_edge { args.n(42, 420) } else { args.n(126, 2016) };
+    let n = args.n(126, 2016);
     par_cases(&mut r, &args, n, |i, r| {
         let sc = generate(seed, i, &opts);
         run(r, &sc);
